@@ -305,9 +305,19 @@ static long eval_const_expr(Token **rest, Token *tok) {
   // [https://www.sigbus.info/n1570#6.10.1p4] In a controlling
   // expression all signed and unsigned integer types act as intmax_t
   // and uintmax_t, respectively.
-  for (Token *t = expr; t->kind != TK_EOF; t = t->next)
-    if (t->kind == TK_NUM && is_integer(t->ty))
-      t->ty = t->ty->is_unsigned ? ty_ulong : ty_long;
+  // A constant is therefore unsigned only if it has a `u` suffix or
+  // does not fit in intmax_t; 0x80000000 is a signed constant here.
+  for (Token *t = expr; t->kind != TK_EOF; t = t->next) {
+    if (t->kind != TK_NUM || !is_integer(t->ty))
+      continue;
+
+    bool is_unsigned = t->ty->is_unsigned && t->ty->size == 8 && t->val < 0;
+    if (t->loc[0] != '\'' && t->loc[t->len - 1] != '\'')
+      for (int i = 1; i < t->len; i++)
+        if (t->loc[i] == 'u' || t->loc[i] == 'U')
+          is_unsigned = true;
+    t->ty = is_unsigned ? ty_ulong : ty_long;
+  }
 
   Token *rest2;
   long val = const_expr(&rest2, expr);
